@@ -248,6 +248,7 @@ func (r *vfRes) inconclusive(why string) {
 }
 
 func (r *vfRes) count(k string, n int64) {
+	vfProgress.Add(1)
 	r.mu.Lock()
 	r.res.Counters[k] += n
 	r.mu.Unlock()
@@ -383,7 +384,8 @@ func vfRegister(p *vfProperty) { vfProps[p.id] = p }
 // ---------------------------------------------------------------- watchdog
 
 type vfWatch struct {
-	deadline atomic.Int64 // unix nano, 0 = off
+	deadline atomic.Int64 // silence budget in nanoseconds, 0 = off
+	started  atomic.Int64 // unix nano at which the current scenario started
 	cur      atomic.Pointer[vfWatchCtx]
 }
 
@@ -396,26 +398,48 @@ type vfWatchCtx struct {
 
 var vfWatchdog vfWatch //nolint:gochecknoglobals
 
+// vfProgress is bumped by everything the monitors observe (wire events, hook events, API calls, counters).
+var vfProgress atomic.Int64 //nolint:gochecknoglobals
+
 // vfWatchLoop runs outside any bubble, on real time. If a scenario exceeds its
 // wall-clock budget it dumps all goroutines, classifies the dump and exits the
 // process; the verdict of the classification is a lock deadlock (violation) or
 // inconclusive, never anything else.
 func vfWatchLoop() {
+	var lastProg int64 = -1
+	var lastChange time.Time
+	var lastCtx *vfWatchCtx
 	for {
 		time.Sleep(500 * time.Millisecond)
 		d := vfWatchdog.deadline.Load()
-		if d == 0 || time.Now().UnixNano() < d {
+		ctx := vfWatchdog.cur.Load()
+		if d == 0 || ctx == nil {
+			lastCtx = nil
+
 			continue
 		}
-		ctx := vfWatchdog.cur.Load()
-		if ctx == nil {
+		now := time.Now()
+		if p := vfProgress.Load(); ctx != lastCtx || p != lastProg {
+			lastCtx, lastProg, lastChange = ctx, p, now
+		}
+		// The budget is a budget of *silence*: a scenario that still produces wire events, hook events,
+		// API calls or monitor counts is slow (loaded machine, race build), not hung. Only when nothing
+		// was observed for the whole budget is the dump classified; a scenario that keeps making progress
+		// is cut off after five budgets as inconclusive.
+		budget := time.Duration(d)
+		stalled := now.Sub(lastChange) >= budget
+		overrun := now.Sub(time.Unix(0, vfWatchdog.started.Load())) >= 5*budget
+		if !stalled && !overrun {
 			continue
 		}
 		buf := make([]byte, 8<<20)
 		n := runtime.Stack(buf, true)
 		dump := string(buf[:n])
 		class, detail := vfClassifyDump(dump)
-		if class == "mutex-deadlock" {
+		if !stalled {
+			class, detail = "slow", ""
+		}
+		if class == "mutex-deadlock" || class == "spin" {
 			// a deadlock is stable: a second dump one second later must show the same picture
 			time.Sleep(time.Second)
 			n2 := runtime.Stack(buf, true)
@@ -636,7 +660,8 @@ func TestVF(t *testing.T) {
 		vfJournal(&env, i, spec)
 		res := vfNewRes(spec)
 		vfWatchdog.cur.Store(&vfWatchCtx{spec: spec, res: res, env: &env, sr: sr})
-		vfWatchdog.deadline.Store(time.Now().Add(time.Duration(env.watchdogSec) * time.Second).UnixNano())
+		vfWatchdog.started.Store(time.Now().UnixNano())
+		vfWatchdog.deadline.Store(int64(time.Duration(env.watchdogSec) * time.Second))
 		start := time.Now()
 		if spec.Procs > 0 {
 			runtime.GOMAXPROCS(spec.Procs)
